@@ -46,7 +46,7 @@ def gen_config(rng, dump, with_process):
     classes = rng.choice(([], [], [4], [1], [4, 7], [4, 3], [0x1f], [0x25, 1], [7], [3], [1, 4, 0x1f, 0x25],
                           [4, 4], [0xff], [200, 4], [0], [4, 0x40c]))
     subs = rng.choice(([], [], [], [0x40c], [0x40c, 0x0301], [0x0301], [0x10c], [0x0701], [0x1f07, 0x40c], [0x140],
-                       [0x40c, 0x40c], [0x04], [0x40c00], [0x0700], [0xffff]))
+                       [0x40c, 0x40c], [0x04], [0x40c00], [0x0700], [0xffff], [0x401, 0x40c], [0x4ff, 0x40c, 0x401]))
     as_tuple = rng.random() < 0.25
     proc = rng.choice((None, None, 'proc0', 'proc1', '100', '200', '101', 'nosuch', 'proc', 'roc1', '10', '', 'launchd',
                        'Safari', 'kernel_task', '/usr/lib/dyld', '11', '12', '-1', '0')) if with_process else None
